@@ -200,3 +200,45 @@ def r18_356(ctx):
         else:
             why += " (ply 0: %s, same root move as searched: %s, order abs<insert<set_pv<info: %s)" % (ply0, same_mov, order)
     ctx.ob("get_best_move:pv-head-is-accepted-move", ok, b.where(loc), why)
+
+
+def r18_7(ctx):
+    """PV bookkeeping primitives: insert_into_cur_line stores the move's descriptor at the given ply,
+    set_principle_variation copies the current line into the PV, the info line prints the PV array."""
+    f = ctx.facts
+    b = f.body(INS_LINE)
+    ctx.note_fn(INS_LINE, SET_PV, SSI)
+    ex = Exprs(b)
+    ok = False
+    for loc, st in b.iter_stmts():
+        if st["k"] == "assign" and st["place"]["proj"]:
+            names = [e.get("name") for e in st["place"]["proj"] if e["k"] == "field"]
+            idx = [ex.local(e["local"], loc) for e in st["place"]["proj"] if e["k"] == "index"]
+            if names[:1] == ["cur_line"] and len(idx) == 1:
+                v = strip_refs(ex.rvalue(st["rv"], loc))
+                i32p = params_by_type(b, "i32")
+                ie = idx[0]
+                while ie[0] == "cast":
+                    ie = ie[2]
+                ok = v[0] == "field" and v[2] == "last_move" and strip_refs(v[1])[0] == "arg" and i32p and ie == ("arg", i32p[0])
+    ctx.ob("insert_into_cur_line", ok, b.file, "cur_line[ply] = mov.last_move")
+    b = f.body(SET_PV)
+    ex = Exprs(b)
+    ok = False
+    for bb, t in b.iter_calls():
+        c = callee_of(t) or ""
+        if c.endswith("clone_from_slice") or c.endswith("copy_from_slice"):
+            a = ex.call_args(bb)
+            flds = [[x[2] for x in subexprs(y) if x[0] == "field"] for y in a]
+            ok = "pv_moves" in flds[0] and "cur_line" in flds[1]
+    ctx.ob("set_principle_variation", ok, b.file, "pv_moves <- cur_line")
+    b = f.body(SSI)
+    ex = Exprs(b)
+    ok = False
+    for bb, t in b.iter_calls():
+        c = callee_of(t) or ""
+        if c.endswith("IntoIterator>::into_iter"):
+            a = ex.call_args(bb)[0]
+            if any(x[0] == "field" and x[2] == "pv_moves" for x in subexprs(a)):
+                ok = True
+    ctx.ob("send_search_info:prints-pv_moves", ok, b.file, "the PV printed is search_info.pv_moves")
